@@ -40,12 +40,14 @@ func (node *Map) Typecheck(ctx context.Context, env physical.Environment, logica
 	var unnests []int
 	for i := range node.expressions {
 		if node.isStar[i] {
+			matched := false
 			for _, field := range source.Schema.Fields {
 				if qualifier := node.starQualifier[i]; qualifier != "" {
 					if !strings.HasPrefix(reverseMapping[field.Name], qualifier+".") {
 						continue
 					}
 				}
+				matched = true
 				expressions = append(expressions, physical.Expression{
 					Type:           field.Type,
 					ExpressionType: physical.ExpressionTypeVariable,
@@ -56,6 +58,9 @@ func (node *Map) Typecheck(ctx context.Context, env physical.Environment, logica
 				})
 				aliases = append(aliases, nil)
 				unnests = append(unnests, 0)
+			}
+			if !matched && node.starQualifier[i] != "" {
+				panic(fmt.Errorf("unknown table in star expression: '%s.*'", node.starQualifier[i]))
 			}
 		} else if node.isObjectExplosion[i] {
 			objectExpr := node.objectExplosions[i].Typecheck(ctx, env.WithRecordSchema(source.Schema), logicalEnv.WithRecordUniqueVariableNames(mapping))
